@@ -1526,6 +1526,7 @@ where
         let _q = Quiet::new();
         for s in self.slots.iter_mut() {
             s.model = s.map.iter().map(|(k, v)| ME { id: k.id(), gen: k.gen(), val: v.get() }).collect();
+            s.plan = s.map.hasher().plan;
         }
     }
 
